@@ -69,6 +69,9 @@ class NativeCheck:
             n = int(m.group(1)) if m else 0
             out["evaluations"] += n
             out["runs"].append({"argv": argv, "env": env, "exit": rc, "inputs": n})
+            for km in re.finditer(r"KNOWN-CLASS (\S+) (\d+) :: (.*)", text or ""):
+                c = out.setdefault("classes", {}).setdefault(km.group(1), {"count": 0, "example": km.group(3).strip(), "argv": argv})
+                c["count"] += int(km.group(2))
             if rc == 1:
                 f = re.search(r"FAILING-PROGRAM (.*)", text)
                 out["status"] = "violation"
